@@ -259,7 +259,8 @@ def check_go_sizes(case: Case, cu: Any, stats: Stats) -> None:
             sn = ref.go_struct_name(m)
             cn = "BYTES_LENGTH_" + ref.upper_snake(sn)
             stats.evaluations += 1
-            if info["consts"].get(cn) != ref.nbytes(m) or info["sizes"].get(sn) != ref.nbytes(m):
+            # Size() is compared only when its body is a literal (C19 executes it in any case)
+            if info["consts"].get(cn) != ref.nbytes(m) or (sn in info["sizes"] and info["sizes"][sn] != ref.nbytes(m)):
                 raise Violation(f"Go size constant {cn}={info['consts'].get(cn)} / {sn}.Size()={info['sizes'].get(sn)}, ceil(N/8)={ref.nbytes(m)}", signature="go-bytes-length")
     stats.count("cfg:go-size")
 
